@@ -324,6 +324,16 @@ theorem popScope_handles (st : St) : (popScope st).handles = st.handles := by
   · split <;> rfl
   · rfl
 
+theorem resolveArgs_refs : ∀ (args : List Arg) (st : St), args.all isRef = true → (resolveArgs st args).1 = st
+  | [], _, _ => rfl
+  | .ref _ :: r, st, h => by
+    simp only [List.all_cons, isRef, Bool.true_and] at h
+    simp only [resolveArgs]; exact resolveArgs_refs r st h
+  | .none :: r, st, h => by
+    simp only [List.all_cons, isRef, Bool.true_and] at h
+    simp only [resolveArgs]; exact resolveArgs_refs r st h
+  | .lit _ :: _, _, h => by simp [isRef] at h
+
 theorem inlineRun_spec (total : Bool) (st0 : St) (f : Fn) (actuals : List (Option Nat))
     (desired : Option (List String)) :
     (inlineRun total st0 f actuals desired).1.cur.nodes = st0.cur.nodes ++ (inlineClones total st0 f actuals).2.2 ∧
@@ -368,7 +378,8 @@ theorem doInline_appends (total : Bool) (fns : List Fn) (st : St) (fi : Nat) (ar
   have hout : (resolveFn (effectiveAttrs total f as) f).outputs = f.outputs := rfl
   rw [hout] at r3
   unfold doInline
-  simp only [hf, h1, Bool.not_true, Bool.false_eq_true, if_false, h2, h3]
+  simp only [hf, h1, Bool.not_true, Bool.and_false, Bool.false_eq_true, if_false, h2, h3,
+    resolveArgs_refs args _ h1]
   by_cases hp : pfx = ""
   · simp only [hp, if_true] at r1 r2 r3 ⊢
     exact ⟨r1, by rw [r2, r3]⟩
@@ -897,8 +908,10 @@ theorem sim_input (S : OpSem α) (fns : List Fn) (args : List α) (st : St) (r :
   | none => rfl
   | some i => exact hE i (h.bnd.handles i ho)
 
-/-- items of a subgraph-free trace. -/
+/-- items of a subgraph-free trace (a `call_inline` with literal operands is covered as long as the builder
+    refuses it, `inlineAdapts = false`). -/
 def simItem : Item → Bool
+  | .inline _ a _ _ _ => !inlineAdapts || a.all isRef
   | .beginSub _ _ => false
   | .endSub _ _ => false
   | _ => true
@@ -1077,16 +1090,6 @@ theorem BndP.placeMany {st : St} {P : List Nat} (h : BndP st P) (clones : List N
           · exact Or.inr ⟨n, by rw [e5']; simp [hn1], hn2⟩
         · exact Or.inr ⟨f, by simp only [St.frames, e6, e7, List.mem_cons]; exact Or.inr hf, hd⟩
 
-theorem resolveArgs_refs : ∀ (args : List Arg) (st : St), args.all isRef = true → (resolveArgs st args).1 = st
-  | [], _, _ => rfl
-  | .ref _ :: r, st, h => by
-    simp only [List.all_cons, isRef, Bool.true_and] at h
-    simp only [resolveArgs]; exact resolveArgs_refs r st h
-  | .none :: r, st, h => by
-    simp only [List.all_cons, isRef, Bool.true_and] at h
-    simp only [resolveArgs]; exact resolveArgs_refs r st h
-  | .lit _ :: _, _, h => by simp [isRef] at h
-
 theorem inlineRun_but (total : Bool) (st0 : St) (f : Fn) (actuals : List (Option Nat))
     (desired : Option (List String)) :
     SameBut (inlineClones total st0 f actuals).1 (inlineRun total st0 f actuals desired).1 := by
@@ -1103,33 +1106,32 @@ theorem Bnd.doInline (total : Bool) (fns : List Fn) (st : St) (fi : Nat) (a : Li
   · rename_i f _
     split
     · exact Bnd.fail st _ h
-    · rename_i hrefs
-      split
+    · split
       · exact Bnd.fail st _ h
       · split
         · exact Bnd.fail st _ h
         · simp only []
           generalize resolveFn (effectiveAttrs total f as) f = f'
-          have hrefs' : a.all isRef = true := by simpa using hrefs
-          -- the builder the body is inlined into
+          -- the builder the body is inlined into, with literal operands (if any) promoted
           have h0 : Bnd (if p = "" then st else pushScope st p) := by
             split
             · exact h
             · exact h.curMeta rfl rfl rfl rfl rfl rfl rfl rfl
           generalize hst0 : (if p = "" then st else pushScope st p) = st0 at h0 ⊢
-          have hact : ∀ i, some i ∈ (resolveArgs st0 a).2 → i < st0.L := by
+          obtain ⟨w1, w2, _, w4, _, w6⟩ := resolveArgs_spec a st0 h0
+          have hact : ∀ i, some i ∈ (resolveArgs st0 a).2 → i < (resolveArgs st0 a).1.L := by
             intro i hi
-            obtain ⟨_, _, _, _, _, w6⟩ := resolveArgs_spec a st0 h0
             rcases w6 i hi with x | x
-            · rw [resolveArgs_refs a st0 hrefs'] at x; exact h0.inits i x
-            · exact h0.handles i x
+            · exact w1.inits i x
+            · exact Nat.lt_of_lt_of_le (h0.handles i x) w4
+          generalize hra : resolveArgs st0 a = ra at w1 hact ⊢
           obtain ⟨b1, b2, b3, b4, b5, b6, b7, b8, b9, b10⟩ := cloneNodes_wf
-            (autoNodeName st0.cur (nodeCount total st0) f'.name ++ "/") f'.nodes st0
-            (f'.formals.zip (resolveArgs st0 a).2) [] h0
-            (vmapGet_zip_bound f'.formals _ st0.L hact)
-          obtain ⟨r1, r2, r3⟩ := inlineRun_spec total st0 f' (resolveArgs st0 a).2
+            (autoNodeName ra.1.cur (nodeCount total ra.1) f'.name ++ "/") f'.nodes ra.1
+            (f'.formals.zip ra.2) [] w1
+            (vmapGet_zip_bound f'.formals _ ra.1.L hact)
+          obtain ⟨r1, r2, r3⟩ := inlineRun_spec total ra.1 f' ra.2
             (o.map (fun o => o.map (qualifyValue st.cur)))
-          obtain ⟨u1, u2, u3, u4, u5, u6, u7⟩ := inlineRun_but total st0 f' (resolveArgs st0 a).2
+          obtain ⟨u1, u2, u3, u4, u5, u6, u7⟩ := inlineRun_but total ra.1 f' ra.2
             (o.map (fun o => o.map (qualifyValue st.cur)))
           simp only [List.nil_append] at b1
           unfold inlineClones at r1 r2 r3 u1 u2 u3 u4 u5 u6 u7
@@ -1140,7 +1142,7 @@ theorem Bnd.doInline (total : Bool) (fns : List Fn) (st : St) (fi : Nat) (a : Li
             · exact ⟨SameBut.refl s, rfl⟩
             · exact ⟨popScope_but s, popScope_nodes s⟩
           obtain ⟨⟨v1, v2, v3, v4, v5, v6, v7⟩, v8⟩ := hpop
-            (inlineRun total st0 f' (resolveArgs st0 a).2 (o.map (fun o => o.map (qualifyValue st.cur)))).1
+            (inlineRun total ra.1 f' ra.2 (o.map (fun o => o.map (qualifyValue st.cur)))).1
           refine b1.placeMany _ (fun c hc => by rw [b4]; exact b9 c hc) ?_ _ ?_ _
             (by simp only [St.L] at v1 u1 ⊢; rw [v1, u1]) (by simp only []; rw [v2, u2, r3]) (by simp only []; rw [v3, u3])
             (by simp only []; rw [v4, u4]) (by simp only []; rw [v5, u5]) (by simp only []; rw [v8, r1, b5])
@@ -1238,14 +1240,16 @@ theorem doInline_fields (total : Bool) (fns : List Fn) (st : St) (fi : Nat) (arg
     (inlineRun total st0 (resolveFn (effectiveAttrs total f as) f) (resolveArgs st0 args).2
       (outs.map (fun o => o.map (qualifyValue st.cur)))).1
   unfold doInline
-  simp only [hf, h1, Bool.not_true, Bool.false_eq_true, if_false, h2, h3, hs0]
+  simp only [hf, h1, Bool.not_true, Bool.and_false, Bool.false_eq_true, if_false, h2, h3, hs0,
+    resolveArgs_refs args _ h1]
   refine ⟨by rw [v3, u3, k1, a3], by rw [v4, u4, k2, a4], by rw [v5, u5, k3, a5], ?_⟩
   simp only [St.L] at v1 u1 k4 a1 ⊢
   omega
 
 theorem sim_inline (S : OpSem α) (fns : List Fn) (args : List α) (st : St) (r : RSt α)
     (fi : Nat) (a : List Arg) (o : Option (List String)) (p : String) (as : List (String × AVal))
-    (hssa : ∀ f ∈ fns, ∀ n ∈ f.nodes, n.outs.Nodup) (h : Sim S args st r) :
+    (hssa : ∀ f ∈ fns, ∀ n ∈ f.nodes, n.outs.Nodup) (hlit : inlineAdapts = true → a.all isRef = true)
+    (h : Sim S args st r) :
     Sim S args (doInline true fns st fi a o p as) (replayStep S fns args r (.inline fi a o p as)) := by
   cases hf : fns[fi]? with
   | none =>
@@ -1352,7 +1356,11 @@ theorem sim_inline (S : OpSem α) (fns : List Fn) (args : List α) (st : St) (r 
               intro x _
               exact c1 x
     · have h1' : (!a.all isRef) = true := by simpa using h1
-      simp only [doInline, replayStep, hf, h1', if_true, Bool.true_or]
+      have hia : inlineAdapts = false := by
+        cases hx : inlineAdapts with
+        | false => rfl
+        | true => exact absurd (hlit hx) h1
+      simp only [doInline, replayStep, hf, h1', hia, Bool.not_false, Bool.and_self, if_true, Bool.true_or]
       exact sim_fail S args st r _ h
 
 theorem sim_step (S : OpSem α) (fns : List Fn) (args : List α) (st : St) (r : RSt α)
@@ -1374,7 +1382,8 @@ theorem sim_step (S : OpSem α) (fns : List Fn) (args : List α) (st : St) (r : 
       simp only [step, doCall, hf, replayStep]
       exact sim_fail S args st r _ h
     | some f => exact sim_call S fns args true st r fi a o as f hf h
-  | inline f a o p as => exact sim_inline S fns args st r f a o p as hssa h
+  | inline f a o p as =>
+    exact sim_inline S fns args st r f a o p as hssa (fun hx => by simpa [simItem, hx] using hs) h
   | beginSub g i => simp [simItem] at hs
   | endSub r d => simp [simItem] at hs
   | output hd n =>
